@@ -101,6 +101,28 @@ pub fn op_stats(w: bool, lens: &[usize], tree: &[&str], bytes: &[u8]) -> String 
             return ("BADTREE".to_string(), true);
         }
         let merged = p_info(&stack[0]);
+        // the property speaks of parts cut at message boundaries: with a (deliberately) damaged
+        // length field the generated part lengths need not be boundaries of the stream any more;
+        // then nothing is expected of the merge
+        let shl = if w { 16 } else { 0 };
+        let mut bounds = vec![0usize];
+        let mut o = 0usize;
+        while o + shl + 4 <= bytes.len() {
+            let len = ((bytes[o + shl + 2] as usize) << 8) | bytes[o + shl + 3] as usize;
+            if len < 4 || o + shl + len > bytes.len() {
+                break;
+            }
+            o += shl + len;
+            bounds.push(o);
+        }
+        let mut e = 0usize;
+        let aligned = lens.iter().all(|l| {
+            e += l;
+            bounds.contains(&e)
+        });
+        if !aligned {
+            return (merged, true);
+        }
         // oracle on the crate itself: merging the parts gives the statistics of the whole,
         // and every ECU bucket total equals the number of collector calls
         let ok = match collect(w, bytes) {
